@@ -582,6 +582,29 @@ def check(pid, tier, replay=None):
         nviol += 1
         notes.extend(what)
 
+    # 4b. thorough tier: independent re-check of the compiled proofs (coqchk) with its own axiom report
+    coqchk_report = None
+    if tier == "thorough" and ok and not replay and os.environ.get("VERIF_NO_COQCHK") != "1":
+        rc4, out4 = sh(["timeout", "2400", "coqchk", "-silent", "-o", "-Q", "theories", "AM", "AM.Properties.%s" % pid], cwd=COQ, timeout=2500)
+        m4 = re.search(r"\* Axioms:(.*?)\n\s*\n\* Constants/Inductives relying on type-in-type:(.*?)\n\s*\n\* Constants/Inductives relying on unsafe \(co\)fixpoints:(.*?)\n\s*\n\* Inductives whose positivity is assumed:(.*?)\n", out4 + "\n", re.S)
+        coqchk_report = {"exit": rc4}
+        if m4:
+            ax = [a.strip() for a in m4.group(1).split("\n") if a.strip() and a.strip() != "<none>"]
+            # primitive-integer operations of Coq's own Uint63 library (used only by the case-file numerals) are not axioms of ours
+            own = [a for a in ax if not a.startswith("Coq.Numbers.Cyclic.Int63.") and not a.startswith("Coq.Floats.")]
+            coqchk_report.update({"axioms_total": len(ax), "axioms_not_primitive_ints": own,
+                                  "type_in_type": m4.group(2).strip(), "unsafe_fixpoints": m4.group(3).strip(),
+                                  "positivity_assumed": m4.group(4).strip()})
+            if own or m4.group(2).strip() != "<none>" or m4.group(3).strip() != "<none>" or m4.group(4).strip() != "<none>":
+                broken.append("coqchk reports axioms / unsafe features: %s" % json.dumps(coqchk_report)[:400])
+        if rc4 != 0:
+            broken.append("coqchk failed (exit %d): %s" % (rc4, out4[-300:]))
+        if broken and not viol_lines:
+            rp = os.path.join(replay_dir, "%s-coqchk.json" % tag)
+            write_json(rp, {"property": pid, "kind": "tie-or-proof-broken", "no_longer_checks": broken})
+            viol_lines.append("VIOLATION property=%s replay=%s no-failing-input-found" % (pid, rp))
+            nviol += 1
+
     # 5. evidence
     cov = {
         "obligations": nobl, "discharged": discharged if ok else min(discharged, nobl - 1),
@@ -603,6 +626,7 @@ def check(pid, tier, replay=None):
         "known_findings_seen": sorted(k for (_, k) in seen_known),
         "shards": len(shards),
         "broken": broken,
+        "coqchk": coqchk_report,
     }
     ev = {"property_id": pid, "tier": tier, "seed": seed, "level": "proof", "coverage": cov,
           "assumptions": cfg.get("assumptions", []) + ["see DESIGN.md section 7 (trusted base) and the per-property section"],
